@@ -508,8 +508,10 @@ func (g *netGen) genC18() {
 		case x < 2 || g.nevh == 0:
 			g.add("evh", int64(r.intn(g.n)), int64(r.intn(g.nt)))
 			g.nevh++
-		case x < 7:
+		case x < 6:
 			g.add("evnext", int64(r.intn(g.nevh)))
+		case x < 7:
+			g.add("evpolldead", int64(r.intn(g.nevh)))
 		case x < 9:
 			g.add("evnextcancel", int64(r.intn(g.nevh)))
 		default:
